@@ -182,3 +182,127 @@ fn c06_row_selection_width_2() {
 fn c06_row_selection_width_4() {
     check(4);
 }
+
+// ---- RowNamespaceData::verify: proof-type guard and root selection ---------------------------------
+/// `RowNamespaceData::verify` sliced verbatim from /repo/types/src/row_namespace_data.rs. The NMT
+/// range proof is a model with nmt-rs's CONTRACT for `verify_complete_namespace`: a presence proof
+/// verifies iff its ghost bit says so for (that root, that namespace, those shares); an absence proof
+/// verifies trivially when the root's range does not cover the namespace (nmt-rs returns Ok before
+/// looking at anything else) and otherwise iff its ghost bit says so.
+mod row {
+    type Result<T, E = Error> = std::result::Result<T, E>;
+    #[derive(Debug)]
+    pub enum Error {
+        WrongProofType,
+        EdsIndexOutOfRange(u16, u16),
+        RangeProofError(RangeProofError),
+    }
+    #[derive(Debug)]
+    pub struct RangeProofError;
+    #[derive(Clone, Copy, PartialEq, Debug)]
+    pub struct NamespaceId(pub u8);
+    #[derive(Clone, Copy, PartialEq, Debug)]
+    pub struct Namespace(pub NamespaceId);
+    impl std::ops::Deref for Namespace {
+        type Target = NamespaceId;
+        fn deref(&self) -> &NamespaceId {
+            &self.0
+        }
+    }
+    #[derive(Clone, Copy, PartialEq, Debug)]
+    pub struct Root {
+        pub id: u8,
+        pub min: u8,
+        pub max: u8,
+    }
+    pub struct DataAvailabilityHeader {
+        pub roots: [Root; 2],
+    }
+    impl DataAvailabilityHeader {
+        pub fn row_root(&self, row: u16) -> Option<Root> {
+            if row == 0 {
+                Some(self.roots[0])
+            } else if row == 1 {
+                Some(self.roots[1])
+            } else {
+                None
+            }
+        }
+    }
+    #[derive(Clone, Copy, Debug)]
+    pub struct RowNamespaceDataId {
+        pub namespace: Namespace,
+        pub row: u16,
+    }
+    impl RowNamespaceDataId {
+        pub fn namespace(&self) -> Namespace {
+            self.namespace
+        }
+        pub fn row_index(&self) -> u16 {
+            self.row
+        }
+    }
+    pub struct Shares {
+        pub n: usize,
+    }
+    impl Shares {
+        pub fn is_empty(&self) -> bool {
+            self.n == 0
+        }
+    }
+    pub struct NamespaceProof {
+        pub absence: bool,
+        /// ghost: the (root id, namespace) for which the hash part of this proof checks out
+        pub good_for: (u8, u8),
+    }
+    impl NamespaceProof {
+        pub fn is_of_absence(&self) -> bool {
+            self.absence
+        }
+        pub fn is_of_presence(&self) -> bool {
+            !self.absence
+        }
+        pub fn verify_complete_namespace(&self, root: &Root, _shares: &Shares, ns: NamespaceId) -> std::result::Result<(), RangeProofError> {
+            if self.absence && !(root.min <= ns.0 && ns.0 <= root.max) {
+                return Ok(());
+            }
+            if self.good_for == (root.id, ns.0) { Ok(()) } else { Err(RangeProofError) }
+        }
+    }
+    pub struct RowNamespaceData {
+        pub shares: Shares,
+        pub proof: NamespaceProof,
+    }
+    include!("generated/row_namespace_data_c06.rs");
+
+    pub fn check_row_data() {
+        let dah = DataAvailabilityHeader {
+            roots: [Root { id: 1, min: kani::any(), max: kani::any() }, Root { id: 2, min: kani::any(), max: kani::any() }],
+        };
+        let row: u16 = kani::any();
+        kani::assume(row <= 3);
+        let ns: u8 = kani::any();
+        let n: usize = kani::any();
+        kani::assume(n <= 2);
+        let data = RowNamespaceData { shares: Shares { n }, proof: NamespaceProof { absence: kani::any(), good_for: (kani::any(), kani::any()) } };
+        let res = data.verify(RowNamespaceDataId { namespace: Namespace(NamespaceId(ns)), row }, &dah);
+        if res.is_ok() {
+            assert!(row < 2, "C06 row data accepted for a row outside the square");
+            let root = if row == 0 { dah.roots[0] } else { dah.roots[1] };
+            assert!((n == 0) == data.proof.absence, "C06 row data: shares with an absence proof (or no shares with a presence proof) accepted");
+            let covers = root.min <= ns && ns <= root.max;
+            assert!(data.proof.good_for == (root.id, ns) || (data.proof.absence && !covers), "C06 row data accepted although the proof does not check out against THAT row's root and the requested namespace");
+        }
+        kani::cover!(res.is_ok() && n > 0, "witness: shares accepted");
+        kani::cover!(res.is_ok() && n == 0, "witness: absence accepted");
+        kani::cover!(res.is_err(), "witness: rejected");
+        std::mem::forget(res);
+    }
+}
+
+// @verif prop=C06 tier=quick shape="2-row DAH with free root ranges, free requested row (0..=3) and namespace, share count 0..=2, proof of presence or absence with a free ghost verdict" funcs="RowNamespaceData::verify"
+#[kani::proof]
+#[kani::unwind(4)]
+fn c06_row_data_proof_type_and_root() {
+    row::check_row_data();
+}
